@@ -23,7 +23,7 @@ SHARD_TIMEOUT = 1200
 FLOORS = {"nontrivial": 1000, "observed": {"purity.contract_evaluations": 3000,
                                            "threads.handoffs_at_instrumented_lines": 2000,
                                            "threads.executions": 2000, "configs.runs": 6}}
-RULE = ("corpus of G-nix / G-canon texts plus edit and resolve scripts; (i) purity: an icontract "
+RULE = ("corpus of G-nix / G-canon texts plus edit and resolve scripts; (i) purity (corpus, the single-gap grid and the multi-gap small-alphabet grid): an icontract "
         "snapshot/ensure contract on NixSourceCode.rebuild (every call) and on every expression "
         "class's rebuild (1 in 8 calls) compares a deep structural snapshot of the tree before and "
         "after, and three consecutive rebuilds must agree; (ii) history: the same texts in shuffled "
@@ -156,7 +156,9 @@ def run_shard(spec):
         mon = PurityMonitor(sample_every=4).install()
         obs["purity"] = {"contract_evaluations": 0, "document_level": 0, "rebuilds": 0, "grid_cells": 0}
         n = 0
-        for case in rt.grid_items(spec["part"], spec["parts"]):
+        import itertools
+        for case in itertools.chain(rt.grid_items(spec["part"], spec["parts"]),
+                                    rt.multi_items(spec["part"], spec["parts"])):
             n += 1
             if case.text is None or n % spec["stride"]:
                 continue
